@@ -355,6 +355,7 @@ void World::on_frames(Client &cl, std::vector<Frame> &fr) {
 }
 
 void World::on_frame(Client &cl, const Frame &f) {
+	if (cl.policy.getb("c19")) { if (f.t == Frame::HTTP) c19_on_handshake_response(cl, f); else c19_on_frame(cl, f); return; }
 	// transport-level checks that hold in every mode
 	if (f.t == Frame::GARBAGE || f.t == Frame::BADJSON) {
 		if (!cl.no_expect || mode == "exact") violation("C10", "torn-or-garbled-frame", "connection c" + std::to_string(cl.idx) + " received " + frame_text(f));
@@ -626,7 +627,7 @@ void World::check_idle_baseline() {
 		std::string which;
 		int n = 0;
 		for (auto &b : g_arena.blocks) if (b.live && b.seq > 0) { if (n++ < 3 && b.seq > base_live_blocks) which += " #" + std::to_string(b.seq) + "(" + std::to_string(b.size) + "B)"; }
-		violation(bp, "memory-not-reclaimed", "allocator has " + std::to_string(g_arena.live_blocks) + " live blocks / " + std::to_string(g_arena.live_bytes) + " bytes with no connection left; baseline " + std::to_string(base_live_blocks) + " / " + std::to_string(base_live_bytes));
+		violation(bp, "memory-not-reclaimed", "allocator has " + std::to_string(g_arena.live_blocks) + " live blocks / " + std::to_string(g_arena.live_bytes) + " bytes with no connection left; baseline " + std::to_string(base_live_blocks) + " / " + std::to_string(base_live_bytes) + "; live allocations made since:" + leaked);
 	}
 }
 
